@@ -115,6 +115,20 @@ static void *h_realloc(void *p, size_t size)
 }
 
 static ares_array_t *arrs[MAXH];
+
+/* which operations reported an allocation failure in this case (named in the ledger's `!MON leak-…` line so that a
+ * leak can be attributed to the unwind path that caused it) */
+static char fail_notes[256];
+
+static void note_failure(const char *what)
+{
+  if (strstr(fail_notes, what) == NULL && strlen(fail_notes) + strlen(what) + 2 < sizeof(fail_notes)) {
+    if (fail_notes[0]) {
+      strcat(fail_notes, "+");
+    }
+    strcat(fail_notes, what);
+  }
+}
 static void          buf_drop(int h);
 static void          sl_reset(void);
 static void          ll_reset(void);
@@ -205,9 +219,11 @@ static void reset_all(void)
   a_calls   = 0;
   /* ledger: everything the case allocated must have been released by the containers' destructors */
   if (a_live != 0) {
-    printf("!MON leak %ld block(s) still allocated after all containers of the case were destroyed\n", a_live);
+    printf("!MON leak-%s %ld block(s) still allocated after all containers of the case were destroyed\n",
+           fail_notes[0] ? fail_notes : "none", a_live);
     a_live = 0;
   }
+  fail_notes[0] = 0;
 }
 
 static const char *ststr(ares_status_t st)
@@ -441,6 +457,12 @@ static void do_ht(int nt, char **t)
         }
         break;
     }
+    if (!ok) {
+      static const char *const kn[] = { "none", "szvp", "strvp", "asvp", "vpvp", "vpstr", "dict", "raw" };
+      char                     what[32];
+      snprintf(what, sizeof(what), "%s:put", kn[kind]);
+      note_failure(what);
+    }
     puts(ok ? "ok" : "err");
   } else if (!strcmp(cmd, "get") && nt == 4) {
     void       *v   = NULL;
@@ -554,6 +576,7 @@ static void do_ht(int nt, char **t)
       ares_socket_t *ks2 = ares_htable_asvp_keys(p, &n);
       size_t        *sz  = n ? malloc(n * sizeof(*sz)) : NULL;
       if (ks2 == NULL && ares_htable_asvp_num_keys(p) != 0) {
+        note_failure("asvp:keys");
         puts("nomem");
         return;
       }
@@ -571,6 +594,7 @@ static void do_ht(int nt, char **t)
     } else if (kind == HT_DICT) {
       char **ks2 = ares_htable_dict_keys(p, &n);
       if (ks2 == NULL && ares_htable_dict_num_keys(p) != 0) {
+        note_failure("dict:keys");
         puts("nomem");
         return;
       }
